@@ -14,6 +14,7 @@
 //! To add a type: implement `WireType` and add `run_type::<T>` to `TYPES`.
 #![allow(dead_code)]
 use super::super::common::*;
+use super::arms;
 use smoltcp::phy::ChecksumCapabilities;
 use smoltcp::wire::*;
 use std::collections::BTreeMap;
@@ -139,7 +140,12 @@ pub fn check_repr<T: WireType>(r: &mut Rng, tier: &str, x: T::R, stats: &mut BTr
     let take = if tier == "thorough" { 60 } else { 24 };
     let step = (muts.len() / take).max(1);
     let off = r.below(step as u64) as usize;
-    for m in muts.iter().skip(off).step_by(step) {
+    // dictionary inputs aimed at rarely taken error / corner arms of this type's parser
+    // (wire/arms.rs): same obligation, parse = Ok y -> y re-emits and re-parses to itself
+    let directed = arms::directed(T::NAME, r);
+    let mut hits = arms::Hits::new();
+    for m in muts.iter().skip(off).step_by(step).chain(directed.iter()) {
+        arms::observe(T::NAME, m, &mut hits);
         *stats.entry("mutated".into()).or_default() += 1;
         let y = match guard(|| T::parse(m, &x)) {
             None => {
@@ -173,6 +179,9 @@ pub fn check_repr<T: WireType>(r: &mut Rng, tier: &str, x: T::R, stats: &mut BTr
                 }
             }
         }
+    }
+    for (k, v) in hits {
+        *stats.entry(format!("arm_{}", k)).or_default() += v;
     }
     fails
 }
